@@ -225,6 +225,11 @@ class Ctx:
         e = dict(GOENV)
         e.update({"VERIF_OUT": self.work, "VERIF_SEED": str(self.seed), "VERIF_TIER": self.tier,
                   "VERIF_DIR": VERIF})
+        # harness temp files (generated config material, sqlite files) live under the work dir
+        # and are removed after the run, so nothing accumulates in /tmp
+        tmpd = os.path.join(self.work, "tmp")
+        os.makedirs(tmpd, exist_ok=True)
+        e["TMPDIR"] = tmpd
         if env:
             e.update(env)
         cmd = ["go", "test", "-modfile=" + modfile, "-overlay", ov, "-count=1", "-vet=off",
@@ -236,6 +241,7 @@ class Ctx:
         if os.path.exists(res_path):
             os.remove(res_path)
         rc, out = sh(cmd, cwd=REPO, env=e, timeout=timeout + 120)
+        shutil.rmtree(tmpd, ignore_errors=True)
         open(os.path.join(self.work, test + ".log"), "w").write(out)
         result = None
         if os.path.exists(res_path):
